@@ -9,6 +9,10 @@
 //	(rpc k) route: caller c calls NewRunNumber on the remote apricot:// client number c mod k — the
 //	       REAL gRPC hop (remote.RemoteService → loopback TCP → RpcServer.NewRunNumber → local.Service
 //	       c mod k → Consul simulator), the path the core takes in production; see remote.go
+//	(inst k) route: START-UPS ARE STEPS. k apricot instances, none constructed when the schedule begins;
+//	       `(s j)` = the construction of instance j (the real local.NewService) begins / its next request
+//	       is processed; caller c calls NewRunNumber on instance c mod k, and cannot be launched before
+//	       that instance is up; obs gets `insts` and `(own (B A)…)`, see exec.go
 //	entry  - | (raw idx)                         -- the Consul key before the schedule
 //	sched  ((r c) | (w c) | (e c) | (f raw) | (d) | (x c))*
 //	         r c  Consul answers c's consistent GET (c is launched here)
@@ -16,8 +20,11 @@
 //	         e c  c's outstanding request is answered 500, nothing applied
 //	         f raw / d   somebody else PUTs / DELETEs the key (through the real client)
 //	         x c  c dies: its parked write is never processed
+//	         s j  (route inst only) instance j is constructed, see above
 //
 // Obs    : (((c status start end reqs) …) (raft entry))   see lean/Driver/C07.lean
+//
+//	| (… … ((j status start end reqs) …) (own (B A) …))   route (inst k)
 //
 // The schedule is replayed EXACTLY on the implementation: the Consul simulator parks every HTTP
 // request and the controller releases them in schedule order (consul.go, exec.go).
@@ -30,6 +37,7 @@ package c07
 import (
 	"fmt"
 	"strconv"
+	"sync/atomic"
 
 	"verifharness/envh"
 	"verifharness/fw"
@@ -42,6 +50,17 @@ import (
 const nRigs = 8
 
 var rigs chan *rig
+
+// ctorRequests counts the requests the constructors of the rigs' own clients and Service objects
+// sent (served at once, see consul.go); 0 for the code as it stands. Evidence only (obsTags).
+var ctorRequests atomic.Int64
+
+func obsTags(input, obs string) []string {
+	if ctorRequests.Load() > 0 && !isEnvInput(input) {
+		return []string{"rig:constructors-sent-requests"}
+	}
+	return nil
+}
 
 func setup(work string) error {
 	if err := envSetup(work); err != nil {
@@ -56,6 +75,7 @@ func setup(work string) error {
 		if err != nil {
 			return err
 		}
+		ctorRequests.Add(int64(len(g.ctorReqs)))
 		rigs <- g
 	}
 	return nil
@@ -126,7 +146,10 @@ type sim struct {
 	raw       string
 	idx, raft uint64
 	cs        []simCaller
+	up        []bool // route (inst k): instance j has been constructed (len = k; nil off that route)
 }
+
+func (m *sim) homeUp(c int) bool { return len(m.up) == 0 || m.up[c%len(m.up)] }
 
 func (m *sim) level() uint64 {
 	if !m.present {
@@ -148,8 +171,15 @@ func (m *sim) apply(st *sx.Node) {
 		m.raft++
 		m.present = false
 		return
+	case "s":
+		m.up[st.At(1).Int()] = true
+		return
 	}
-	c := &m.cs[st.At(1).Int()]
+	ci := st.At(1).Int()
+	c := &m.cs[ci]
+	if (kind == "r" || kind == "e") && c.phase == phIdle && !m.homeUp(ci) {
+		return
+	}
 	switch kind {
 	case "r":
 		if c.phase == phIdle {
@@ -197,6 +227,8 @@ func mkInput(n int, store *sx.Node, sched []*sx.Node) string {
 	return sx.L(sx.I(n), store, sx.L(sched...)).String()
 }
 
+func stepS(j int) *sx.Node     { return sx.L(sx.A("s"), sx.I(j)) }
+func instNode(k int) *sx.Node  { return sx.L(sx.A("inst"), sx.I(k)) }
 func routeNode(k int) *sx.Node { return sx.L(sx.A("svc"), sx.I(k)) }
 func rpcNode(k int) *sx.Node   { return sx.L(sx.A("rpc"), sx.I(k)) }
 
@@ -326,6 +358,226 @@ func exhaustive(n, extra int, stores []*sx.Node, tag string) []fw.Case {
 		for _, it := range all {
 			cs = append(cs, fw.Case{Input: mkInput(n, st, it.s), Tags: []string{tag}})
 		}
+	}
+	return cs
+}
+
+// ---- start-ups as steps: route (inst k) -----------------------------------------------------------
+//
+// Class exercised: SERVICE CONSTRUCTIONS THAT OVERLAP — with each other, with allocations of
+// instances already up, with foreign writes/deletes — on a KV where the counter key is absent,
+// present, or wiped in between. Whatever a constructor does on the shared KV (nothing, for the
+// code as it stands; probing, creating, repairing, migrating the counter for a variant) happens at
+// these steps and nowhere else.
+
+// startInterleavings: every merge of the programs
+//
+//	instance j < k : (s j) × sPer     (sPer > 1: further steps for a construction that sends requests)
+//	caller   c < n : (r c) (w c)      (on instance c mod k)
+//
+// in which no caller is launched before the first step of its instance.
+func startInterleavings(k, sPer, n int) [][]*sx.Node {
+	var out [][]*sx.Node
+	ipc := make([]int, k)
+	cpc := make([]int, n)
+	var cur []*sx.Node
+	var rec func()
+	rec = func() {
+		done := true
+		for j := 0; j < k; j++ {
+			if ipc[j] < sPer {
+				done = false
+				ipc[j]++
+				cur = append(cur, stepS(j))
+				rec()
+				cur = cur[:len(cur)-1]
+				ipc[j]--
+			}
+		}
+		for c := 0; c < n; c++ {
+			if cpc[c] < 2 {
+				done = false
+				if cpc[c] == 0 && ipc[c%k] == 0 {
+					continue
+				}
+				kind := "r"
+				if cpc[c] == 1 {
+					kind = "w"
+				}
+				cpc[c]++
+				cur = append(cur, stepC(kind, c))
+				rec()
+				cur = cur[:len(cur)-1]
+				cpc[c]--
+			}
+		}
+		if done {
+			out = append(out, append([]*sx.Node{}, cur...))
+		}
+	}
+	rec()
+	return out
+}
+
+func startEvents(n int) []*sx.Node {
+	ev := []*sx.Node{stepD(), stepF("0"), stepF("1000"), stepF("")}
+	for c := 0; c < n; c++ {
+		ev = append(ev, stepC("e", c))
+	}
+	return append(ev, stepC("x", n-1))
+}
+
+// startExhaustive: startInterleavings alone and with ONE event of startEvents at every position.
+func startExhaustive(k, sPer, n int, withEvents bool, stores []*sx.Node, tag string) []fw.Case {
+	var cs []fw.Case
+	merges := startInterleavings(k, sPer, n)
+	for _, st := range stores {
+		for _, s := range merges {
+			cs = append(cs, fw.Case{Input: mkInputR(n, st, s, instNode(k)), Tags: []string{tag, "route=inst", "class=start-ups"}})
+			if !withEvents {
+				continue
+			}
+			for pos := 0; pos <= len(s); pos++ {
+				for _, e := range startEvents(n) {
+					cs = append(cs, fw.Case{Input: mkInputR(n, st, insertAt(s, pos, e), instNode(k)),
+						Tags: []string{tag + ",+1ev", "route=inst", "class=start-ups"}})
+				}
+			}
+		}
+	}
+	return cs
+}
+
+// genRandomInst: a random schedule on the (inst k) route.
+func genRandomInst(r *rng.R, maxCallers, maxLen int) fw.Case {
+	k := rng.Pick(r, []int{1, 2, 2, 2, 3, 3, 4})
+	n := r.Range(1, maxCallers)
+	tags := []string{"random", "route=inst", "class=start-ups", fmt.Sprintf("inst=%d", k)}
+	m := &sim{cs: make([]simCaller, n), up: make([]bool, k)}
+	switch x := r.N(20); {
+	case x < 9:
+		m.raft = uint64(r.N(4))
+		tags = append(tags, "init=absent")
+	case x < 11:
+		m.present, m.raw = true, "0"
+		tags = append(tags, "init=zero")
+	case x < 12:
+		m.present, m.raw = true, rng.Pick(r, junk)
+		tags = append(tags, "init=junk")
+	case x < 13:
+		m.present, m.raw = true, strconv.FormatUint(maxU32-uint64(r.N(3)), 10)
+		tags = append(tags, "init=near-wrap")
+	default:
+		m.present, m.raw = true, strconv.Itoa(r.N(600000))
+		tags = append(tags, "init=number")
+	}
+	if m.present {
+		m.idx = uint64(r.Range(1, 50))
+		m.raft = m.idx + uint64(r.N(5))
+	}
+	store := storeNode(m.raft, m.raw, m.idx, m.present)
+	length := r.Range(2, maxLen)
+	var sched []*sx.Node
+	wiped, lowered, early := false, false, false
+	for i := 0; i < length; i++ {
+		var st *sx.Node
+		switch x := r.N(100); {
+		case x < 14: // some instance: its construction begins, or goes on (a no-op for an instance that is up)
+			st = stepS(r.N(k))
+		case x < 78:
+			c := r.N(n)
+			for tries := 0; tries < 3 && m.cs[c].phase >= phDone; tries++ {
+				c = r.N(n)
+			}
+			switch {
+			case m.cs[c].phase == phIdle && !m.homeUp(c) && !r.P(1, 8):
+				st = stepS(c % k)
+			case m.cs[c].phase == phIdle:
+				if !m.homeUp(c) {
+					early = true
+				}
+				st = stepC("r", c)
+			default:
+				st = stepC("w", c)
+			}
+		case x < 82:
+			st = stepC("e", r.N(n))
+		case x < 86:
+			st = stepC("x", r.N(n))
+		case x < 94:
+			lv := m.level()
+			switch y := r.N(10); {
+			case y < 6:
+				nv := lv + uint64(r.N(3))
+				if nv > maxU32 {
+					nv = maxU32
+				}
+				st = stepF(strconv.FormatUint(nv, 10))
+			case y < 8:
+				st = stepF("0")
+				if lv > 0 {
+					lowered = true
+				}
+			default:
+				st = stepF(rng.Pick(r, junk))
+				if lv > 0 {
+					lowered = true
+				}
+			}
+		default:
+			st = stepD()
+			wiped = true
+			if m.level() > 0 {
+				lowered = true
+			}
+		}
+		m.apply(st)
+		sched = append(sched, st)
+	}
+	// further steps for constructions and calls still under way (no-ops for the code as it stands)
+	if r.P(1, 2) {
+		for t := r.Range(1, 2*k); t > 0; t-- {
+			sched = append(sched, stepS(r.N(k)))
+		}
+		for t := r.N(n + 1); t > 0; t-- {
+			st := stepC("w", r.N(n))
+			m.apply(st)
+			sched = append(sched, st)
+		}
+		tags = append(tags, "extra-s-w-tail")
+	}
+	tags = append(tags, fmt.Sprintf("callers=%d", n))
+	if wiped {
+		tags = append(tags, "key-wiped")
+	}
+	if lowered {
+		tags = append(tags, "foreign-lowers")
+	}
+	if early {
+		tags = append(tags, "call-before-its-instance-is-up")
+	}
+	return fw.Case{Input: mkInputR(n, store, sched, instNode(k)), Tags: tags}
+}
+
+var zeroStore = storeNode(3, "0", 3, true)
+
+func generateStartups(tier string, r *rng.R) []fw.Case {
+	var cs []fw.Case
+	absent := exhStores[:1]
+	cs = append(cs, startExhaustive(2, 2, 2, false, []*sx.Node{exhStores[0], exhStores[1], zeroStore}, "start:exh:k=2,2s,n=2")...)
+	cs = append(cs, startExhaustive(1, 2, 2, true, exhStores, "start:exh:k=1,2s,n=2")...)
+	cs = append(cs, startExhaustive(2, 1, 2, true, absent, "start:exh:k=2,1s,n=2")...)
+	cs = append(cs, startExhaustive(2, 1, 3, false, exhStores, "start:exh:k=2,1s,n=3")...)
+	cs = append(cs, startExhaustive(3, 1, 2, false, absent, "start:exh:k=3,1s,n=2")...)
+	nRandom, maxCallers, maxLen := 1500, 6, 30
+	if tier == "thorough" {
+		cs = append(cs, startExhaustive(2, 2, 2, true, exhStores, "start:exh:k=2,2s,n=2")...)
+		cs = append(cs, startExhaustive(3, 1, 3, false, absent, "start:exh:k=3,1s,n=3")...)
+		cs = append(cs, startExhaustive(2, 2, 3, false, absent, "start:exh:k=2,2s,n=3")...)
+		nRandom, maxCallers, maxLen = 25000, 10, 60
+	}
+	for i := 0; i < nRandom; i++ {
+		cs = append(cs, genRandomInst(r.Fork(), maxCallers, maxLen))
 	}
 	return cs
 }
@@ -506,8 +758,11 @@ func generate(tier string, r *rng.R) []fw.Case {
 		cs = append(cs, genRandom(r.Fork(), maxCallers, maxLen))
 	}
 	// the environment-level stream goes first: its cases run one at a time (envh is process-global)
-	// while the other workers replay protocol schedules
-	return append(generateEnv(tier, r.Fork()), cs...)
+	// while the other workers replay protocol schedules; the start-up stream draws from a fork taken
+	// AFTER everything else, so the older streams are what they were
+	env := generateEnv(tier, r.Fork())
+	cs = append(cs, generateStartups(tier, r.Fork())...)
+	return append(env, cs...)
 }
 
 // search: the wider stream used only after the correspondence broke without a Spec failure
@@ -516,6 +771,12 @@ func generate(tier string, r *rng.R) []fw.Case {
 // schedules, then random ones.
 func search(r *rng.R) []fw.Case {
 	var cs []fw.Case
+	cs = append(cs, startExhaustive(2, 2, 2, false, exhStores[:1], "search:start:k=2,2s,n=2")...)
+	if more := startExhaustive(2, 3, 2, false, exhStores[:1], "search:start:k=2,3s,n=2"); len(more) > 3000 {
+		cs = append(cs, more[:3000]...)
+	} else {
+		cs = append(cs, more...)
+	}
 	cs = append(cs, routedRPC(exhaustive(2, 0, exhStores, "search:n=2"), 1)...)
 	cs = append(cs, routedRPC(exhaustive(1, 1, exhStores, "search:n=1,+1ev"), 1)...)
 	cs = append(cs, routed(exhaustive(2, 0, exhStores, "search:n=2"), 1)...)
@@ -559,9 +820,17 @@ func nontrivial(input, obs string) bool {
 			disturbed = true
 		}
 	}
+	called := false
 	for _, st := range in.At(2).List {
-		if k := st.At(0).Str(); k == "f" || k == "d" {
+		switch k := st.At(0).Str(); k {
+		case "f", "d":
 			disturbed = true
+		case "r", "e":
+			called = true
+		case "s": // a construction step while calls are (or have been) under way
+			if called {
+				disturbed = true
+			}
 		}
 	}
 	return launched >= 2 && oks >= 1 && disturbed
@@ -590,7 +859,7 @@ func shrinkCands(input string) []string {
 	if n > 1 {
 		used := false
 		for _, st := range steps {
-			if k := st.At(0).Str(); k != "f" && k != "d" && st.At(1).Int() == n-1 {
+			if k := st.At(0).Str(); k != "f" && k != "d" && k != "s" && st.At(1).Int() == n-1 {
 				used = true
 			}
 		}
@@ -634,12 +903,14 @@ func init() {
 			"were disturbed (refused CAS, error, dead/pending caller or foreign write/delete); distinct by input text." + envRule,
 		Shrink:   shrinkCands,
 		Search:   search,
+		ObsTags:  obsTags,
 		Workers:  nRigs,
 		Setup:    setup,
 		Teardown: teardown,
 		TrustedBase: []string{
 			"harness/props/c07 gRPC chains (remote.go): the real remote.NewServer on a loopback listener in front of the rig's local.Service, the real remote.NewService as caller; error classes of answers that crossed the hop are told from the status description (code Unknown = the handler's error text); every other status code from the transport is inconclusive",
-			"harness/props/c07 Consul KV simulator (consul.go): index per write, cas semantics of kvsSetCASTxn, linearizable consistent GET",
+			"harness/props/c07 Consul KV simulator (consul.go): index per write, cas semantics of kvsSetCASTxn, linearizable consistent GET; a request outside any scenario (objects of the rig being constructed, vh gen evaluating the constructor) is served at once against a scratch store and recorded",
+			"harness/props/c07 start-ups (exec.go, route inst): a construction is an actor like a caller — its requests are attributed because one actor runs at a time; answers carry Connection: close while a scenario constructs Service objects (each brings its own connection pool)",
 			"harness/props/c07 controller (exec.go): one caller runs at a time, so requests are attributed without tagging; a caller without any event within the ceiling is set aside and only its later RETURN (an event) is used — no request at all may reach the simulator while such a caller is out, else the case is inconclusive",
 			"github.com/hashicorp/consul/api client (real, unmodified) and net/http on loopback",
 			"environment-level stream: harness/envh (environment builder, probe plugin, event capture, scripted task-level bodies — the scripted START body resets currentRunNumber on failure as StartActivityTransition.do does) and the verif hooks it uses in /repo; apricot's mock:// (file) branch of NewRunNumber stands in for one undisturbed call of the protocol",
@@ -648,6 +919,7 @@ func init() {
 			"Consul itself: a consistent-mode GET is linearizable, ModifyIndex grows with every write, PUT ?cas= is atomic (the simulator and the Lean model implement exactly this)",
 			"ForeignMonotone: nobody else lowers or deletes the counter (stated as a hypothesis of the theorems; cases violating it are executed and compared with the model, Spec is vacuous for them)",
 			"grpc-go between the remote client and the apricot server: a handler's plain Go error reaches the client as a status of code Unknown carrying its text and no response message; no retry policy is configured (one RPC that reached the handler = one handler run). That the handler and the client themselves make ONE call each and hand the error on is extracted by go/ast (C07_remote_hop_is_code) and replayed (route (rpc k))",
+			"start-ups: what constructing a Service does on the KV is observed for local.NewService on a consul:// backend (C07_startup_is_code: go/ast + evaluation of the linked constructor); the rest of a core's or daemon's start-up (apricot.Instance(), viper, gRPC server) is not run; an instance that is restarted is a new instance",
 			"the start attempts of ONE environment are sequential (TryTransition holds the environment's transition mutex — C01), so each is a complete call on the durable counter; other environments' calls in between are foreign-monotone writes for it",
 		},
 	})
